@@ -61,6 +61,17 @@ def run(tier):
     pairs = []
     progs = 0
     nfiles = 0
+    # input directories of the sources, so that one source can be compiled "warm" after another one
+    from .. import ziexpand
+    other_in = {}
+    indirs = {}
+    for sname, lines in sources:
+        d = os.path.join(work, 'indir-' + sname)
+        ziexpand.write_input_dir(lines, d)
+        indirs[sname] = d
+    snames = [sname for sname, _l in sources]
+    for i, sname in enumerate(snames):
+        other_in[sname] = indirs[snames[(i + 1) % len(snames)]]
     for sname, lines in sources:
         w = os.path.join(work, sname)
         os.makedirs(w)
@@ -70,13 +81,26 @@ def run(tier):
             label = '%s:%s' % (sname, scope)
             outs = []
             for k, hs in enumerate(['0', '0', '1', '17'] if tier == 'thorough' else ['0', '0', '3']):
-                res, out, err = compiler.run_compiler(lines, w, scope, flags=('arduino', 'python', 'inmem') + (('pieces',) if k == 0 else ()) + (('warm',) if k == 2 else ()), hashseed=hs, tag='-run%d' % k)
+                # run 2 first compiles, in the same process, the other scope; run 1 first compiles another source (same policy
+                # names, other rules) in the same scope: the files must be identical to those of the cold run 0
+                extra = ()
+                if k == 2:
+                    extra = ('warm',)
+                elif k == 1 and other_in.get(sname):
+                    extra = ('warmdir:' + other_in[sname],)
+                res, out, err = compiler.run_compiler(lines, w, scope, flags=('arduino', 'python', 'inmem') + (('pieces',) if k == 0 else ()) + extra, hashseed=hs, tag='-run%d' % k)
                 if res is None:
                     chk.violation('%s:compiler' % label, 'compiler failed (run %d): %s' % (k, err), {})
                     break
                 outs.append(out)
                 if k == 0:
                     res_by_scope[scope] = res
+                    if sorted(res['zone_strings']) != sorted(res['emitted_zones']):
+                        chk.violation('%s:zone-strings' % label, 'the zone-name list handed to the generators (zone_strings.cpp / tzdb.json) has %d names, the compiler emitted %d zones (only in one: %s)' % (
+                            len(res['zone_strings']), len(res['emitted_zones']), sorted(set(res['zone_strings']) ^ set(res['emitted_zones']))[:6]), {})
+                    usedf = {f.replace('%s', '%') for fs in res['emitted_formats'].values() for f in fs}      # (the list holds the short form)
+                    if not usedf <= set(res['format_strings']):
+                        chk.violation('%s:format-strings' % label, 'formats used by emitted eras missing from the format-string list: %s' % sorted(usedf - set(res['format_strings']))[:6], {})
             if len(outs) < 2:
                 continue
             # determinism: every generated file identical across runs and hash seeds (modulo reason order inside comments)
